@@ -6,6 +6,13 @@ package influx
 
 //@ prop C06
 
+//@ func strings.IndexByte
+//@   extern T-str: -1 if the byte does not occur, else its first index
+//@   ensures -1 <= result && result < len(s)
+//@   ensures result >= 0 ==> s[result] == c && (forall k int :: 0 <= k && k < result ==> s[k] != c)
+//@   ensures result == -1 ==> (forall k int :: 0 <= k && k < len(s) ==> s[k] != c)
+//@   assigns nothing
+
 //@ func bytes.LastIndexByte
 //@   extern T-str: -1 or an index holding the byte
 //@   ensures result == -1 || (0 <= result && result < len(s) && s[result] == c)
@@ -36,6 +43,7 @@ package influx
 // Field values: integers keep every digit, booleans their truth value, non-finite floats and
 // the unsigned suffix are rejected.
 //@ func parseFieldNumValue
+//@   mode bv
 //@   ghost n int64 = 0
 //@   call ParseInt64
 //@     set n = ret0
@@ -46,3 +54,12 @@ package influx
 //@   ensures (s == "t" || s == "T" || s == "true" || s == "True" || s == "TRUE") ==> (result2 == nil && result1 == Field_Type_Boolean && result0 == 1)
 //@   ensures (s == "F" || s == "false" || s == "False" || s == "FALSE") ==> (result2 == nil && result1 == Field_Type_Boolean && result0 == 0)
 //@   ensures result2 == nil && result1 == Field_Type_Float ==> !isNaN(result0) && !isInf(result0)
+
+// Un-escaping agrees with the escaping rules of the splitter (nextUnescapedChar treats `\,`, `\ `, `\=`
+// and `\\` as escapes): a backslash is re-emitted only in front of a character that is NOT escapable.
+//@ func unescapeTagValue
+//@   ensures noEscapeChars ==> result == s
+//@   call append
+//@     requires (len(arg1) == 1 && arg1[0] == 92 && len(s) > 0 && ch != 92) ==> (ch != 32 && ch != 44 && ch != 61)
+//@   loop 1
+//@     invariant 0 <= n && n < len(s) && s[n] == 92 && (forall k int :: 0 <= k && k < n ==> s[k] != 92)
